@@ -229,13 +229,13 @@ pub open spec fn sip_absorb(v: Seq<u64>, msg: Seq<u8>, n: nat) -> Seq<u64>
     if n == 0 {
         v
     } else {
-        sip_compress(sip_absorb(v, msg, (n - 1) as nat), le64(msg.subrange(8 * (n - 1), 8 * n)))
+        sip_compress(sip_absorb(v, msg, (n - 1) as nat), le64(msg.subrange(8 * (n - 1), 8 * n as int)))
     }
 }
 
 /// the final block: the len mod 8 remaining bytes, null bytes, and a last byte encoding len mod 256
 pub open spec fn sip_last_block(msg: Seq<u8>) -> Seq<u8> {
-    let rem = msg.subrange(8 * (msg.len() / 8), msg.len() as int);
+    let rem = msg.subrange(8 * (msg.len() / 8) as int, msg.len() as int);
     rem + zeros((7 - rem.len()) as nat) + seq![(msg.len() % 256) as u8]
 }
 
@@ -277,6 +277,159 @@ pub proof fn kat_salsa_qr()
         salsa_qr(0x00000001, 0, 0, 0) == (0x08008145u32, 0x00000080u32, 0x00010200u32, 0x20500000u32),
 {
     assert(salsa_qr(0x00000001, 0, 0, 0) == (0x08008145u32, 0x00000080u32, 0x00010200u32, 0x20500000u32)) by (compute);
+}
+
+/// draft-irtf-cfrg-xchacha-03 §2.2.1 (key 00..1f, input 00:00:00:09:00:00:00:4a:00:00:00:00:31:41:59:27)
+pub proof fn kat_hchacha20() {
+    assert(hchacha20_rfc(
+        seq![0x00u8, 0x01u8, 0x02u8, 0x03u8, 0x04u8, 0x05u8, 0x06u8, 0x07u8, 0x08u8, 0x09u8, 0x0au8, 0x0bu8,
+        0x0cu8, 0x0du8, 0x0eu8, 0x0fu8, 0x10u8, 0x11u8, 0x12u8, 0x13u8, 0x14u8, 0x15u8, 0x16u8, 0x17u8,
+        0x18u8, 0x19u8, 0x1au8, 0x1bu8, 0x1cu8, 0x1du8, 0x1eu8, 0x1fu8],
+        seq![0x00u8, 0x00u8, 0x00u8, 0x09u8, 0x00u8, 0x00u8, 0x00u8, 0x4au8, 0x00u8, 0x00u8, 0x00u8, 0x00u8,
+        0x31u8, 0x41u8, 0x59u8, 0x27u8],
+        None,
+    ) =~= seq![0x82u8, 0x41u8, 0x3bu8, 0x42u8, 0x27u8, 0xb2u8, 0x7bu8, 0xfeu8, 0xd3u8, 0x0eu8, 0x42u8, 0x50u8,
+        0x8au8, 0x87u8, 0x7du8, 0x73u8, 0xa0u8, 0xf9u8, 0xe4u8, 0xd5u8, 0x8au8, 0x74u8, 0xa8u8, 0x53u8,
+        0xc1u8, 0x2eu8, 0xc4u8, 0x13u8, 0x26u8, 0xd3u8, 0xecu8, 0xdcu8]) by (compute);
+}
+
+/// NaCl ("Cryptography in NaCl" §8, tests/core1.c; libsodium test/default/core1.c): firstkey = HSalsa20(shared, 0)
+pub proof fn kat_hsalsa20() {
+    assert(hsalsa20_rfc(
+        seq![0x4au8, 0x5du8, 0x9du8, 0x5bu8, 0xa4u8, 0xceu8, 0x2du8, 0xe1u8, 0x72u8, 0x8eu8, 0x3bu8, 0xf4u8,
+        0x80u8, 0x35u8, 0x0fu8, 0x25u8, 0xe0u8, 0x7eu8, 0x21u8, 0xc9u8, 0x47u8, 0xd1u8, 0x9eu8, 0x33u8,
+        0x76u8, 0xf0u8, 0x9bu8, 0x3cu8, 0x1eu8, 0x16u8, 0x17u8, 0x42u8],
+        seq![0x00u8, 0x00u8, 0x00u8, 0x00u8, 0x00u8, 0x00u8, 0x00u8, 0x00u8, 0x00u8, 0x00u8, 0x00u8, 0x00u8,
+        0x00u8, 0x00u8, 0x00u8, 0x00u8],
+        None,
+    ) =~= seq![0x1bu8, 0x27u8, 0x55u8, 0x64u8, 0x73u8, 0xe9u8, 0x85u8, 0xd4u8, 0x62u8, 0xcdu8, 0x51u8, 0x19u8,
+        0x7au8, 0x9au8, 0x46u8, 0xc7u8, 0x60u8, 0x09u8, 0x54u8, 0x9eu8, 0xacu8, 0x64u8, 0x74u8, 0xf2u8,
+        0x06u8, 0xc4u8, 0xeeu8, 0x08u8, 0x44u8, 0xf6u8, 0x83u8, 0x89u8]) by (compute);
+}
+
+/// SipHash paper, appendix A: key 00..0f, message 00..0e -> a129ca6149be45e5; and the reference implementation's
+/// vectors for the message lengths 0, 7, 8, 16 (block boundaries)
+pub proof fn kat_siphash24() {
+    assert(siphash24_rfc(
+        seq![0x00u8, 0x01u8, 0x02u8, 0x03u8, 0x04u8, 0x05u8, 0x06u8, 0x07u8, 0x08u8, 0x09u8, 0x0au8, 0x0bu8,
+        0x0cu8, 0x0du8, 0x0eu8, 0x0fu8],
+        seq![],
+    ) =~= seq![0x31u8, 0x0eu8, 0x0eu8, 0xddu8, 0x47u8, 0xdbu8, 0x6fu8, 0x72u8]) by (compute);
+    assert(siphash24_rfc(
+        seq![0x00u8, 0x01u8, 0x02u8, 0x03u8, 0x04u8, 0x05u8, 0x06u8, 0x07u8, 0x08u8, 0x09u8, 0x0au8, 0x0bu8,
+        0x0cu8, 0x0du8, 0x0eu8, 0x0fu8],
+        seq![0x00u8, 0x01u8, 0x02u8, 0x03u8, 0x04u8, 0x05u8, 0x06u8],
+    ) =~= seq![0x37u8, 0xd1u8, 0x01u8, 0x8bu8, 0xf5u8, 0x00u8, 0x02u8, 0xabu8]) by (compute);
+    assert(siphash24_rfc(
+        seq![0x00u8, 0x01u8, 0x02u8, 0x03u8, 0x04u8, 0x05u8, 0x06u8, 0x07u8, 0x08u8, 0x09u8, 0x0au8, 0x0bu8,
+        0x0cu8, 0x0du8, 0x0eu8, 0x0fu8],
+        seq![0x00u8, 0x01u8, 0x02u8, 0x03u8, 0x04u8, 0x05u8, 0x06u8, 0x07u8],
+    ) =~= seq![0x62u8, 0x24u8, 0x93u8, 0x9au8, 0x79u8, 0xf5u8, 0xf5u8, 0x93u8]) by (compute);
+    assert(siphash24_rfc(
+        seq![0x00u8, 0x01u8, 0x02u8, 0x03u8, 0x04u8, 0x05u8, 0x06u8, 0x07u8, 0x08u8, 0x09u8, 0x0au8, 0x0bu8,
+        0x0cu8, 0x0du8, 0x0eu8, 0x0fu8],
+        seq![0x00u8, 0x01u8, 0x02u8, 0x03u8, 0x04u8, 0x05u8, 0x06u8, 0x07u8, 0x08u8, 0x09u8, 0x0au8, 0x0bu8,
+        0x0cu8, 0x0du8, 0x0eu8],
+    ) =~= seq![0xe5u8, 0x45u8, 0xbeu8, 0x49u8, 0x61u8, 0xcau8, 0x29u8, 0xa1u8]) by (compute);
+    assert(siphash24_rfc(
+        seq![0x00u8, 0x01u8, 0x02u8, 0x03u8, 0x04u8, 0x05u8, 0x06u8, 0x07u8, 0x08u8, 0x09u8, 0x0au8, 0x0bu8,
+        0x0cu8, 0x0du8, 0x0eu8, 0x0fu8],
+        seq![0x00u8, 0x01u8, 0x02u8, 0x03u8, 0x04u8, 0x05u8, 0x06u8, 0x07u8, 0x08u8, 0x09u8, 0x0au8, 0x0bu8,
+        0x0cu8, 0x0du8, 0x0eu8, 0x0fu8],
+    ) =~= seq![0xdbu8, 0x9bu8, 0xc2u8, 0x57u8, 0x7fu8, 0xccu8, 0x2au8, 0x3fu8]) by (compute);
+}
+
+// ================================================================================================
+// ASSUMPTIONS: std items without a vstd specification
+// ================================================================================================
+/// ASSUMPTION (std documentation of `u32::rotate_left`): "Shifts the bits to the left by a specified amount, n,
+/// wrapping the truncated bits to the end of the resulting integer."
+pub assume_specification[ u32::rotate_left ](x: u32, n: u32) -> (r: u32)
+    ensures
+        0 < n < 32 ==> r == rotl32(x, n),
+;
+
+/// ASSUMPTION, R2 shim for `x.to_le_bytes()` (u32): the bytes of x in little-endian order. Body = the original call.
+#[verifier::external_body]
+pub fn shim_u32_to_le_bytes(x: u32) -> (r: [u8; 4])
+    ensures
+        le_nat(r@) == x as nat,
+{
+    x.to_le_bytes()
+}
+
+/// ASSUMPTION, R2 shim for `x.to_le_bytes()` (u64). Body = the original call.
+#[verifier::external_body]
+pub fn shim_u64_to_le_bytes(x: u64) -> (r: [u8; 8])
+    ensures
+        le_nat(r@) == x as nat,
+{
+    x.to_le_bytes()
+}
+
+// ================================================================================================
+// Lemmas
+// ================================================================================================
+/// a byte sequence is determined by its length and its little-endian value
+pub proof fn lemma_nat_to_le_of_le_nat(s: Seq<u8>)
+    ensures
+        nat_to_le(le_nat(s), s.len()) == s,
+    decreases s.len(),
+{
+    if s.len() == 0 {
+        assert(nat_to_le(le_nat(s), 0) =~= s);
+    } else {
+        let t = s.subrange(1, s.len() as int);
+        lemma_nat_to_le_of_le_nat(t);
+        let v = le_nat(s);
+        assert(v == s[0] as nat + 256 * le_nat(t));
+        assert(v % 256 == s[0] as nat);
+        assert(v / 256 == le_nat(t));
+        assert(nat_to_le(v, s.len()) == seq![(v % 256) as u8] + nat_to_le(v / 256, (s.len() - 1) as nat));
+        assert(seq![s[0]] + t =~= s);
+    }
+}
+
+/// the 16-word state `s` held in 16 local variables
+pub open spec fn st16_is(
+    s: Seq<u32>,
+    x0: u32, x1: u32, x2: u32, x3: u32, x4: u32, x5: u32, x6: u32, x7: u32,
+    x8: u32, x9: u32, x10: u32, x11: u32, x12: u32, x13: u32, x14: u32, x15: u32,
+) -> bool {
+    &&& s.len() == 16
+    &&& s[0] == x0 && s[1] == x1 && s[2] == x2 && s[3] == x3
+    &&& s[4] == x4 && s[5] == x5 && s[6] == x6 && s[7] == x7
+    &&& s[8] == x8 && s[9] == x9 && s[10] == x10 && s[11] == x11
+    &&& s[12] == x12 && s[13] == x13 && s[14] == x14 && s[15] == x15
+}
+
+/// `s[0..n]` of a sequence of length n is the sequence itself (for `load_u32_le(&key[a..a + 4])`)
+pub proof fn lemma_subrange_all()
+    ensures
+        forall|s: Seq<u8>, n: int| n == s.len() ==> #[trigger] s.subrange(0, n) == s,
+{
+    assert forall|s: Seq<u8>, n: int| n == s.len() implies #[trigger] s.subrange(0, n) == s by {
+        assert(s.subrange(0, n) =~= s);
+    }
+}
+
+/// 8 words written little-endian one after the other
+pub proof fn lemma_ser32_8(out: Seq<u8>, w: Seq<u32>)
+    requires
+        out.len() == 32,
+        w.len() == 8,
+        forall|k: int| 0 <= k < 8 ==> le_nat(#[trigger] out.subrange(4 * k, 4 * k + 4)) == w[k] as nat,
+    ensures
+        out == ser32(w),
+{
+    let r = ser32(w);
+    assert forall|i: int| 0 <= i < 32 implies out[i] == r[i] by {
+        let k = i / 4;
+        let c = out.subrange(4 * k, 4 * k + 4);
+        lemma_nat_to_le_of_le_nat(c);
+        assert(c[i % 4] == out[i]);
+    }
+    assert(out =~= r);
 }
 
 } // verus!
